@@ -88,6 +88,11 @@ func (a *ArgMax) Apply(inputs []tensor.Tensor) ([]tensor.Tensor, error) {
 
 	// The tensor.Argmax function returns data of type int, but according to
 	// the ONNX standard this operator should return int64.
+	// When all dimensions are reduced, the result is a scalar of which the data is not a list.
+	if index, ok := reduced.Data().(int); ok {
+		return []tensor.Tensor{tensor.New(tensor.FromScalar(int64(index)))}, nil
+	}
+
 	backing, ok := reduced.Data().([]int)
 	if !ok {
 		return nil, ops.ErrTypeAssert("int", reduced.Dtype())
